@@ -105,6 +105,69 @@ class BadReduce:
         return self.rv
 
 
+class Red:
+    """Generic object for the full matrix of `__reduce__` return values
+    (callable, args[, state[, listitems[, dictitems[, state_setter]]]]).  The constructor defaults differ from every
+    state value, so a `__setstate__`/state_setter call that is skipped (or made although pickle would not) is visible."""
+
+    def __init__(self, *args):
+        self.args = args
+        self.state = 'CONSTRUCTOR-DEFAULT'
+        self.set_by = None
+        self.items = []
+        self.map = {}
+
+    def __setstate__(self, state):
+        self.state = state
+        self.set_by = 'setstate'
+
+    def append(self, x):  # listitems
+        self.items.append(x)
+
+    def extend(self, xs):
+        for x in xs:
+            self.items.append(x)
+
+    def __setitem__(self, k, v):  # dictitems
+        self.map[k] = v
+
+    def __reduce__(self):
+        n, use_setter, st, has_l, has_d = self._proto
+        rv = [Red, self.args, st,
+              iter(list(self.items)) if has_l else None,
+              iter(list(self.map.items())) if has_d else None,
+              _red_setter if use_setter else None]
+        return tuple(rv[:n])
+
+
+def _red_setter(obj, state):
+    obj.state = state
+    obj.set_by = 'setter'
+
+
+def make_red(args, n, state, listitems, dictitems, use_setter):
+    """the object pickle would rebuild from the reduce value (callable, args, state, listitems, dictitems, setter)[:n]"""
+    o = Red(*args)
+    st = state if n >= 3 else None
+    li = listitems if n >= 4 else None
+    di = dictitems if n >= 5 else None
+    use_setter = use_setter and n >= 6
+    if st is not None:  # pickle: BUILD / state_setter only for `state is not None` -- falsy states count
+        if use_setter:
+            _red_setter(o, st)
+        else:
+            o.__setstate__(st)
+    for x in (li or []):
+        o.append(x)
+    for k, v in (di or []):
+        o[k] = v
+    o.__dict__['_proto'] = (n, use_setter, st, li is not None, di is not None)
+    return o
+
+
+RED_FIELDS = ('args', 'state', 'set_by', 'items', 'map')
+
+
 def rt(obj, fmt=None, **load_kw):
     bio = io.BytesIO()
     with warnings.catch_warnings():
@@ -437,6 +500,103 @@ def sc_reduce_variants(rng):
     return fails
 
 
+def sc_reduce_matrix(rng):
+    """every shape of a `__reduce__` value x falsy / truthy / nested / shared states x empty / non-empty list and dict
+    items; oracle: equal to the original and to the pickle round trip, field by field"""
+    fails = []
+    shared = [1, 2]
+    inner = make_red((7,), 3, {'deep': shared}, None, None, False)
+    states = [None, 0, False, (), [], {}, '', 0.0, b'', set(), np.int64(0), np.bool_(False), 0j,
+              1, True, (1,), [1], {'k': 1}, 'x', -2.5, b'y', {3}, np.int64(4), (0,), [[]], {' ': None},
+              shared, (shared, shared), inner, {'obj': inner, 'again': shared}]
+    rng.shuffle(states)
+    objs = []
+    for st in states:
+        n = rng.choice([3, 3, 4, 5, 6, 6])
+        li = rng.choice([None, [], [shared], [0, None, shared, ()], [inner]])
+        di = rng.choice([None, [], [('k', shared)], [(0, 0), ('', ''), ((1, 2), inner)]])
+        objs.append(make_red(rng.choice([(), (0,), (shared,), (None, False)]), n, st, li, di, rng.random() < 0.6))
+    # the remaining corners explicitly: length 2, every length with a falsy state, setter with state None
+    objs.append(make_red((), 2, 5, [1], [(1, 1)], True))
+    for n in (3, 4, 5, 6):
+        for st in (0, (), False):
+            objs.append(make_red((n,), n, st, [], [], n == 6))
+    objs.append(make_red((), 6, None, [shared], None, True))
+    objs.append(make_red((), 6, 0, None, None, True))
+    cyc = make_red((), 4, [], [], None, False)
+    cyc.append(cyc)  # self reference through listitems
+    cyc.state.append(cyc)  # ... and through the state
+    cyc.__dict__['_proto'] = (4, False, cyc.state, True, False)
+    objs.append(cyc)
+    root = {'objs': objs, 'shared': shared, 'inner': inner}
+    try:
+        back = rt(root)
+    except Exception as e:
+        return [('hdf5.reduce-matrix.raises:' + type(e).__name__, repr(e)[:300])]
+    with warnings.catch_warnings():
+        warnings.simplefilter('ignore')
+        pick = pickle.loads(pickle.dumps(root, protocol=5))
+    for i, o in enumerate(objs):
+        spec = 'proto(n, setter, state, listitems?, dictitems?)=%r' % (o._proto[:2] + (repr(o._proto[2])[:40],) + o._proto[3:],)
+        for which, other in (('original', o), ('pickle', pick['objs'][i])):
+            b = back['objs'][i]
+            if type(b) is not Red:
+                fails.append(('hdf5.reduce-matrix.type', '%s: loaded %r' % (spec, b)))
+                break
+            for fld in RED_FIELDS:
+                C = G.Compare(max_diffs=1)
+                if C.run(getattr(other, fld), getattr(b, fld)):
+                    kind = 'falsy-state' if (fld in ('state', 'set_by') and o._proto[2] is not None and not _truthy(o._proto[2])) else fld
+                    fails.append(('hdf5.reduce-matrix.differs-from-%s:%s' % (which, kind),
+                                  '%s: field %s: expected %r, loaded %r' % (spec, fld, getattr(other, fld), getattr(b, fld))))
+    # identities: shared list inside states / items / args is one object, the nested Red is one object
+    b = back
+    for i, o in enumerate(objs):
+        if o.state is shared and b['objs'][i].state is not b['shared']:
+            fails.append(('hdf5.reduce-matrix.identity:state', 'object %d' % i))
+        if any(x is shared for x in o.items) and not any(x is b['shared'] for x in b['objs'][i].items):
+            fails.append(('hdf5.reduce-matrix.identity:listitems', 'object %d' % i))
+        if o.state is inner and b['objs'][i].state is not b['inner']:
+            fails.append(('hdf5.reduce-matrix.identity:nested-object', 'object %d' % i))
+    c = back['objs'][-1]
+    if type(c) is Red and not (len(c.items) == 1 and c.items[0] is c and c.state and c.state[0] is c):
+        fails.append(('hdf5.reduce-matrix.self-reference', repr((c.items, c.state))[:200]))
+    return fails
+
+
+def _truthy(x):
+    try:
+        return bool(x)
+    except Exception:
+        return True
+
+
+def sc_dict_keys(rng):
+    """unusual but legal dict keys: each dict separately (simple format where every key is a valid path component, general
+    format otherwise), then all together"""
+    fails = []
+    val = [1, 2]
+    odd = ['', '.', '..', 'a/b', '/', ' ', 'a b', 'ü', '名', 'keys', 'values', 'type', '0', '-1', 'A' * 200, 'a.b', '\\', '%s', "'"]
+    for k in odd:
+        d = {k: val, 'other': val}
+        try:
+            b = rt({'d': d})['d']
+        except Exception as e:
+            name = 'empty-string' if k == '' else 'other'
+            fails.append(('hdf5.dict-key-%s.raises' % name, 'key %r: %r' % (k, e)))
+            continue
+        fails += K.oracle(d, b, 'hdf5.dict-key', 'dict')
+        if b[k] is not b['other']:
+            fails.append(('hdf5.dict-key.identity', 'key %r' % k))
+    mixed = {1: 'int', '1': 'str', 1.5: 'float', (1, '1'): 'tuple', None: 'none', True: 'bool (== 1: overwrites)', b'1': 'bytes',
+             frozenset([1]): 'frozenset', 2 ** 70: 'big'}
+    try:
+        fails += K.oracle({'m': mixed}, rt({'m': mixed}), 'hdf5.dict-key.mixed', 'dict')
+    except Exception as e:
+        fails.append(('hdf5.dict-key-mixed.raises:' + type(e).__name__, repr(e)[:300]))
+    return fails
+
+
 def sc_global_errors(rng):
     """functions / classes are saved by name: what cannot be found again under its name is an export error"""
     fails = []
@@ -657,7 +817,7 @@ def sc_nested_options(rng):
 SCENARIOS = collections.OrderedDict([
     ('wrappers_subpath', sc_wrappers_subpath), ('file_endings', sc_file_endings), ('masked_arrays', sc_masked_arrays),
     ('dtypes_and_arrays', sc_dtypes_and_arrays), ('ignored_exclude', sc_ignored_exclude),
-    ('unknown_class_and_global', sc_unknown_class_and_global), ('reduce_variants', sc_reduce_variants),
+    ('unknown_class_and_global', sc_unknown_class_and_global), ('reduce_variants', sc_reduce_variants), ('reduce_matrix', sc_reduce_matrix), ('dict_keys', sc_dict_keys),
     ('global_errors', sc_global_errors), ('format_errors', sc_format_errors), ('leg_format_errors', sc_leg_format_errors),
     ('legacy_files', sc_legacy_files), ('segments', sc_segments), ('nested_options', sc_nested_options),
 ])
